@@ -107,3 +107,34 @@ func NewPostgresBackend() *Backend {
 	}
 	return &Backend{Name: "postgres(pgshim)", store: st, DB: db, path: ":memory:", stop: func() { _ = db.Close() }}
 }
+
+// InstallCommitFaults: while armed, every row change also inserts a row whose
+// DEFERRED foreign key cannot be satisfied: all statements of the transaction succeed
+// and report their rows, COMMIT itself fails and SQLite rolls back (same device as
+// world.installCommitFaults of engine A).
+func (b *Backend) InstallCommitFaults() error {
+	stmts := []string{
+		`PRAGMA foreign_keys = ON`,
+		`CREATE TABLE IF NOT EXISTS verif_arm (armed INTEGER)`,
+		`INSERT INTO verif_arm SELECT 0 WHERE NOT EXISTS (SELECT 1 FROM verif_arm)`,
+		`CREATE TABLE IF NOT EXISTS verif_fk_parent (id TEXT PRIMARY KEY)`,
+		`CREATE TABLE IF NOT EXISTS verif_fk (x TEXT REFERENCES verif_fk_parent(id) DEFERRABLE INITIALLY DEFERRED)`,
+	}
+	for _, t := range []string{"promises", "callbacks", "schedules", "locks", "tasks"} {
+		for _, op := range []string{"INSERT", "UPDATE", "DELETE"} {
+			stmts = append(stmts, fmt.Sprintf(`CREATE TRIGGER IF NOT EXISTS verif_cf_%s_%s AFTER %s ON %s WHEN (SELECT armed FROM verif_arm) = 1 BEGIN INSERT INTO verif_fk(x) VALUES ('missing'); END`, t, op, op, t))
+		}
+	}
+	for _, q := range stmts {
+		if _, err := b.DB.Exec(q); err != nil {
+			return fmt.Errorf("commit-fault machinery: %v (%s)", err, q)
+		}
+	}
+	return nil
+}
+
+func (b *Backend) Arm(on int) {
+	if _, err := b.DB.Exec(`UPDATE verif_arm SET armed = ?`, on); err != nil {
+		panic(fmt.Sprintf("storex arm: %v", err))
+	}
+}
